@@ -218,6 +218,163 @@ def _sortcomm(p):
     return p  # patterns above are written in the canonical operand order produced by mk()
 
 
+# ---------------------------------------------------------------- lane semantics of the kernel core
+#
+# Abstract interpretation of the bit-sliced kernel core over BYTE LANES.  Every intermediate value is described, for one
+# byte lane, by (T, U): T[xb*256+yb] = the lane's byte when the lane's input bytes are (xb, yb) and nothing crosses a lane
+# boundary, U = mask of lane bits that a neighbouring lane might influence (shifted-in bits, carries, borrows).  All lanes
+# are described by the same (T, U) because the DAG applies the same word-wide operation to every lane.  Transfer functions:
+#   and/or/xor   bitwise on T; an unknown bit survives an `and` only where the other operand can be 1
+#   shl/shr k    shift T inside the byte; the k bits shifted in come from the neighbour: unknown iff the neighbour
+#                (same function) can have a 1 there
+#   add, c - v   exact when both operands are fully known and no entry overflows/borrows out of the byte (then no
+#                lane ever sends a carry/borrow to its neighbour); otherwise every bit becomes unknown
+#   mul3         v + (v << 1) with the same carry condition
+# The core is accepted when the result has U = 0 and T equals, for all 65 536 (xb, yb), the sum over the byte's four
+# dibits of the TLSH dibit distance (|a-b|, 3 -> 6).  Nothing here depends on the lane width of the backend.
+
+def _dibit_ref():
+    t = [0] * 65536
+    for xb in range(256):
+        for yb in range(256):
+            s_ = 0
+            for k in range(4):
+                a, b2 = (xb >> (2 * k)) & 3, (yb >> (2 * k)) & 3
+                d = abs(a - b2)
+                s_ += 6 if d == 3 else d
+            t[xb * 256 + yb] = s_
+    return t
+
+
+_REF = []
+
+
+def lane_eval(d, memo=None):
+    """(T, U, maybe) for DAG node d; `maybe` = OR of all table entries (bits that can be 1)."""
+    memo = memo if memo is not None else {}
+    key = id(d) if False else d
+    if key in memo:
+        return memo[key]
+    k = d[0]
+    FULL = range(65536)
+    if k == "in":
+        T = [(i >> 8) if d[1] == 1 else (i & 255) for i in FULL]
+        r = (T, 0)
+    elif k == "splat8":
+        r = ([d[1]] * 65536, 0)
+    elif k in ("k", "splat32"):
+        r = None  # a constant that is not the same in every byte lane: not lane-uniform
+    elif k in ("and", "or", "xor") and len(d) == 3:
+        a, b = lane_eval(d[1], memo), lane_eval(d[2], memo)
+        if a is None or b is None:
+            r = None
+        else:
+            (Ta, Ua), (Tb, Ub) = a, b
+            if k == "and":
+                T = [x & y for x, y in zip(Ta, Tb)]
+                ma, mb = _maybe(Ta) | Ua, _maybe(Tb) | Ub
+                U = (Ua & mb) | (Ub & ma)
+            elif k == "or":
+                T = [x | y for x, y in zip(Ta, Tb)]
+                U = Ua | Ub
+            else:
+                T = [x ^ y for x, y in zip(Ta, Tb)]
+                U = Ua | Ub
+            r = (T, U)
+    elif k in ("shl", "shr") and len(d) == 3 and d[2][0] == "k" and isinstance(d[2][1], int) and 0 < d[2][1] < 8:
+        a = lane_eval(d[1], memo)
+        if a is None:
+            r = None
+        else:
+            Ta, Ua = a
+            n_ = d[2][1]
+            m = _maybe(Ta) | Ua
+            if k == "shr":
+                T = [x >> n_ for x in Ta]
+                U = (Ua >> n_) | ((m & ((1 << n_) - 1)) << (8 - n_))
+            else:
+                T = [(x << n_) & 255 for x in Ta]
+                U = ((Ua << n_) & 255) | (m >> (8 - n_))
+            r = (T, U)
+    elif k in ("add", "sub") and len(d) == 3:
+        a, b = lane_eval(d[1], memo), lane_eval(d[2], memo)
+        if a is None or b is None:
+            r = None
+        else:
+            (Ta, Ua), (Tb, Ub) = a, b
+            if k == "add":
+                T = [x + y for x, y in zip(Ta, Tb)]
+                ok = Ua == 0 and Ub == 0 and max(T) <= 255
+            else:
+                T = [x - y for x, y in zip(Ta, Tb)]
+                ok = Ua == 0 and Ub == 0 and min(T) >= 0
+            r = (T, 0) if ok else ([x & 255 for x in T], 255)
+    elif k == "mul3" and len(d) == 2:
+        a = lane_eval(d[1], memo)
+        if a is None:
+            r = None
+        else:
+            Ta, Ua = a
+            T = [3 * x for x in Ta]
+            ok = Ua == 0 and max(T) <= 255
+            r = (T, 0) if ok else ([x & 255 for x in T], 255)
+    else:
+        r = None
+    memo[key] = r
+    return r
+
+
+def _maybe(T):
+    m = 0
+    for x in set(T):
+        m |= x
+    return m
+
+
+def lane_laws(ctx, r, F):
+    """C08: metric laws of the body kernel read off its lane table (the table computed from the kernel itself, not the reference)."""
+    for fam in ("pseudo32", "pseudo64"):
+        b, d = kernel_dag(F, BODY_KERNELS[fam])
+        if b is None or d is None:
+            continue
+        s8 = split_tail(fam, d) or split_tail(fam, _swap_mul(d))
+        res = lane_eval(s8) if s8 is not None else None
+        ctx.instance(r)
+        if res is None or res[1]:
+            ctx.ob(r, (fam, "lane-table"), False, "no exact lane table for the %s kernel core" % fam, cfg=F.key, where=b.where())
+            continue
+        T = res[0]
+        sym_bad = [(i >> 8, i & 255) for i in range(65536) if T[i] != T[(i & 255) * 256 + (i >> 8)]][:2]
+        zero_bad = [(i >> 8, i & 255) for i in range(65536) if (T[i] == 0) != ((i >> 8) == (i & 255))][:2]
+        ctx.ob(r, (fam, "lane-symmetric"), not sym_bad, "lane distance differs when the operands are swapped, e.g. bytes %s" % sym_bad, cfg=F.key, where=b.where())
+        ctx.ob(r, (fam, "lane-zero-iff-equal"), not zero_bad, "lane distance is zero for different bytes / non-zero for equal bytes, e.g. %s" % zero_bad, cfg=F.key, where=b.where())
+        ctx.ob(r, (fam, "lane-max-24"), max(T) == 24 and T[0x00 * 256 + 0xFF] == 24, "maximum lane distance is %d (bytes 00/ff give %d); reference 4 dibits x 6" % (max(T), T[0xFF]), cfg=F.key, where=b.where())
+        break
+
+
+def lane_semantics(ctx, r, F, fam, b, s8):
+    """R-02.5 (core semantics): the kernel core returns, in every byte lane, the sum of the four dibit distances of that lane."""
+    if not _REF:
+        _REF.append(_dibit_ref())
+    res = lane_eval(s8)
+    why = None
+    if res is None:
+        why = "the core contains an operation or constant that is not uniform over byte lanes"
+    else:
+        T, U = res
+        if U:
+            why = "bits %s of a lane may depend on a neighbouring lane (carry, borrow or shifted-in bits not masked off)" % format(U, "08b")
+        else:
+            bad = [i for i in range(65536) if T[i] != _REF[0][i]]
+            if bad:
+                i = bad[0]
+                why = "lane bytes x=0x%02x y=0x%02x give %d; reference %d (sum of the four dibit distances); %d of 65536 lane inputs differ" % (i >> 8, i & 255, T[i], _REF[0][i], len(bad))
+    ctx.instance(r)
+    ctx.ob(r, (fam, "core-semantics"), why is None,
+           "the bit-sliced core of the %s kernel does not compute the per-byte sum of dibit distances: %s" % (fam, why), cfg=F.key, where=b.where(),
+           detail={"lane_inputs": 65536, "max_lane_sum": 24})
+
+
 def kernel_dag(F, path):
     b = F.fn(path)
     if b is None:
@@ -246,6 +403,19 @@ def body_kernels(ctx, r, F):
                "horizontal-sum tail of %s does not match its family's recorded shape" % path, cfg=F.key, where=b.where())
         if s8 is not None:
             got[fam] = (b, s8)
+    # the arithmetic itself: decided once per configuration on the reference kernel (siblings are tied to it by DAG equality);
+    # if the siblings differ the difference is reported below and each differing core is evaluated on its own
+    sem_done = set()
+    for fam in (["pseudo32"] if "pseudo32" in got else sorted(got)[:1]):
+        lane_semantics(ctx, r, F, fam, got[fam][0], got[fam][1])
+        sem_done.add(fam)
+    # the horizontal-sum tails add the byte sums of one lane without overflow: a byte sum is at most 4 dibits x 6 = 24
+    LANE_BYTES = {"pseudo32": (4, 255), "sse4.1": (4, 255), "avx2": (4, 255), "pseudo64": (8, 255), "sse2": (2, 65535), "neon": (2, 65535)}
+    for fam in sorted(got):
+        nb, cap = LANE_BYTES[fam]
+        ctx.instance(r)
+        ctx.ob(r, (fam, "tail-sum-fits"), nb * 24 <= cap,
+               "the %s tail adds %d byte sums of up to 24 into a field that holds at most %d" % (fam, nb, cap), cfg=F.key, trivial=True)
     if len(got) >= 2:
         ref_fam = "pseudo32" if "pseudo32" in got else sorted(got)[0]  # the scalar kernel is the reference; a difference is reported against the SIMD backend
         ref = got[ref_fam][1]
